@@ -625,6 +625,7 @@ func (e *Exec) resetPath(j *job) {
 	e.ufSeq = 0
 	e.jsonBlobs = nil
 	e.opaqueBytes = nil
+	e.timeFmtDigits = false
 }
 
 // ---------- obligations ----------
